@@ -208,9 +208,8 @@ Proof.
   match goal with |- context [match ?bw with Some _ => _ | None => match pick_node_exit ?A ?X ?R ?N ?P ?I ?T with _ => _ end end] =>
     destruct bw as [x4|] eqn:Ebw end.
   - assert (H4 : refs_ok (session_ x4) /\ plens x4 = plens x3).
-    { destruct (n_router n) as [rt|]; [|discriminate]. destruct (rt_wait rt) as [[[] tmo]|]; try discriminate.
-      dmatch_hyp Ebw; [discriminate|]. inversion Ebw; subst.
-      split; [apply refs_ok_log_event; [exact R3|rewrite P3, P2; exact Hsr1]|apply plens_log_event]. }
+    { destruct (n_router n) as [rt|]; [|discriminate]. destruct (rt_wait rt) as [[[] tmo]|]; try discriminate; try (dmatch_hyp Ebw; [discriminate|]); inversion Ebw; subst.
+      all: (split; [apply refs_ok_log_event; [exact R3|rewrite P3, P2; exact Hsr1]|apply plens_log_event]). }
     destruct H4 as [R4 P4]. apply Hfin.
     + change (refs_ok (session_ (with_session x4 (fun s => upd_run s ri (run_set_status RWaiting))))). apply refs_ok_upd; auto.
     + change (plens (with_session x4 (fun s => upd_run s ri (run_set_status RWaiting))) = plens x3). rewrite plens_upd by reflexivity. exact P4.
